@@ -167,6 +167,120 @@ fn main() {
                 }
             }
         }
+        // family: the client's Connection header nominates the proxy-owned names as connection options
+        // (a relay that honours RFC 7230 section 6.1 on the way out must not drop what it stamped itself)
+        let mut judge = |res: &mut EngineResult, m: &Msg, elevated: bool, t0: i64, t1: i64, signed: bool, spoofed: &[Vec<u8>], sent_names: &[String], case: &serde_json::Value| {
+            for (tag, what) in hostcheck::check_owned_headers(m, elevated, t0, t1) {
+                res.violation(&format!("owned-header:{tag}"), &what, case.clone());
+            }
+            for name in [CLAIMS, DATE] {
+                for v in m.header_all(name) {
+                    if spoofed.iter().any(|sv| sv.as_slice() == v) {
+                        res.violation("owned-header:client-value-reached-host", &format!("client-supplied {name} value {:?} reached the host", String::from_utf8_lossy(v)), case.clone());
+                    }
+                }
+            }
+            if signed {
+                match hostcheck::verify_signature(m, &keys, sent_names) {
+                    SigVerdict::Valid { .. } => {}
+                    SigVerdict::Unsigned => res.violation("signed:no-authorization-header", "request on the signed route reached the host without authorization header", case.clone()),
+                    SigVerdict::Bad(why) => {
+                        let tag = if why.contains("authorization headers") { "authorization-count" } else { "authorization-invalid" };
+                        res.violation(&format!("signed:{tag}"), &format!("{why}; header block {:?}", String::from_utf8_lossy(&m.raw_head)), case.clone())
+                    }
+                }
+                for v in m.header_all(AUTHZ) {
+                    if spoofed.iter().any(|sv| sv.as_slice() == v) {
+                        res.violation("signed:client-authorization-reached-host", "client-supplied authorization value reached the host on a signed request", case.clone());
+                    }
+                }
+            }
+        };
+        let conn_values = ["keep-alive, x-ms-azure-host-claims, X-Ms-Azure-Host-Date, x-ms-azure-host-authorization", "x-ms-azure-host-claims", "close, X-MS-AZURE-HOST-DATE", "TE, x-ms-azure-host-authorization, x-ms-azure-host-date"];
+        let mut conn_n = 0u64;
+        for route in ["signed", "nokey"] {
+            w.set_key(if route == "nokey" { None } else { Some(K1) });
+            for (clabel, rec, hidx, elevated) in &callers {
+                for cv in conn_values {
+                    for copies in [0usize, 1] {
+                        for hname in ["Connection", "Proxy-Connection"] {
+                            let mut hdrs: Vec<(String, Vec<u8>)> = vec![("Host".into(), b"metadata".to_vec()), ("Metadata".into(), b"true".to_vec()), (hname.into(), cv.as_bytes().to_vec())];
+                            let mut spoofed: Vec<Vec<u8>> = Vec::new();
+                            for (i, name) in owned.iter().enumerate() {
+                                for k in 0..copies {
+                                    let val = format!("SPOOFED-{i}-{k}");
+                                    spoofed.push(val.clone().into_bytes());
+                                    hdrs.push((name.to_string(), val.into_bytes()));
+                                }
+                            }
+                            let hv: Vec<(&str, &[u8])> = hdrs.iter().map(|(n, v)| (n.as_str(), v.as_slice())).collect();
+                            let raw = build_request("GET", "/metadata/instance?api-version=2021-02-01", &hv, None, None);
+                            let s = send_one(&w, next_port(), rec, *hidx, &raw);
+                            evals += 1;
+                            conn_n += 1;
+                            let case = json!({"family": "connection-options", "route": route, "caller": clabel, "header": hname, "value": cv, "client_copies_of_each_owned_header": copies});
+                            nontrivial.insert(case.to_string());
+                            if s.status != Ok(200) || s.at_host.len() != 1 {
+                                res.violation("not-relayed", &format!("authorized request not relayed exactly once: status {:?}, {} requests at host", s.status, s.at_host.len()), case.clone());
+                                continue;
+                            }
+                            relayed += 1;
+                            let sent_names: Vec<String> = hdrs.iter().map(|h| h.0.to_lowercase()).collect();
+                            judge(&mut res, &s.at_host[0], *elevated, s.t_before, s.t_after, route == "signed", &spoofed, &sent_names, &case);
+                        }
+                    }
+                }
+            }
+        }
+        res.cov("connection_option_requests", conn_n);
+        // family: requests on one kept-alive client connection while the host closes its side after each answer
+        // (whatever the proxy does to get a later request through, what arrives is judged like any relayed request)
+        let closing: vcommon::rawhttp::Responder = std::sync::Arc::new(|_m: &Msg, _c, _i| Action::ReplyClose(vec![simple_response(200, &[], b"ok")]));
+        let mut hostclose_n = 0u64;
+        for route in ["signed", "nokey"] {
+            w.set_key(if route == "nokey" { None } else { Some(K1) });
+            for (clabel, rec, hidx, elevated) in &callers {
+                for gap_ms in [0u64, 60] {
+                    let host = w.hosts.all()[*hidx];
+                    host.set_responder(closing.clone());
+                    if let Ok(mut c) = w.connect(Some(next_port()), Some(rec)) {
+                        for step in 0..3usize {
+                            let mut hdrs: Vec<(String, Vec<u8>)> = vec![("Host".into(), b"metadata".to_vec()), ("Metadata".into(), b"true".to_vec())];
+                            let mut spoofed: Vec<Vec<u8>> = Vec::new();
+                            if step > 0 {
+                                for (i, name) in owned.iter().enumerate() {
+                                    let val = if i == 2 { plausible[2].to_string() } else { format!("SPOOFED-{i}-{step}") };
+                                    spoofed.push(val.clone().into_bytes());
+                                    hdrs.push((name.to_string(), val.into_bytes()));
+                                }
+                            }
+                            let hv: Vec<(&str, &[u8])> = hdrs.iter().map(|(n, v)| (n.as_str(), v.as_slice())).collect();
+                            let raw = build_request("GET", "/metadata/instance?api-version=2021-02-01", &hv, None, None);
+                            let cur = host.cursor();
+                            let t0 = hostcheck::now_unix();
+                            let st = c.send(&raw).map_err(|e| e.to_string()).and_then(|_| c.read_response(false, Duration::from_secs(10)).map(|m| m.status()));
+                            let t1 = hostcheck::now_unix();
+                            evals += 1;
+                            hostclose_n += 1;
+                            let case = json!({"family": "host-closes-after-each-answer", "route": route, "caller": clabel, "request_on_connection": step + 1, "gap_ms": gap_ms});
+                            nontrivial.insert(case.to_string());
+                            let sent_names: Vec<String> = hdrs.iter().map(|h| h.0.to_lowercase()).collect();
+                            for (_, m) in host.requests_since(cur) {
+                                relayed += 1;
+                                judge(&mut res, &m, *elevated, t0, t1, route == "signed", &spoofed, &sent_names, &case);
+                            }
+                            if st.is_err() {
+                                break;
+                            }
+                            std::thread::sleep(Duration::from_millis(gap_ms));
+                        }
+                        c.close();
+                    }
+                    host.set_responder(std::sync::Arc::new(|_m: &Msg, _c, _i| Action::Reply(vec![simple_response(200, &[], b"ok")])));
+                }
+            }
+        }
+        res.cov("host_closes_between_requests", hostclose_n);
         // date stays current over time (thorough only: needs > 60 s of real time)
         if thorough {
             w.set_key(Some(K1));
@@ -204,7 +318,7 @@ fn main() {
         }
         res.cov(
             "rule",
-            format!("full product: copies of each of the three proxy-owned header names in {{0,1,2}}^3 x 3 spellings (alternating between copies) x {{plausible, garbage}} values x {{elevated caller -> WireServer, non-elevated -> IMDS}} x routes {{signed, signature-exempt upload, no key latched}}{}; each request on a fresh attributed connection; non-trivial = at least one client-supplied copy", if thorough { " + requests at wall-clock offsets 0/1/60/120/180/300 s (consecutive gaps 1, 59, 60, 60, 120 s) for the date header" } else { " (quick: garbage values only with lower-case spelling)" }),
+            format!("full product: copies of each of the three proxy-owned header names in {{0,1,2}}^3 x 3 spellings (alternating between copies) x {{plausible, garbage}} values x {{elevated caller -> WireServer, non-elevated -> IMDS}} x routes {{signed, signature-exempt upload, no key latched}}{}; each request on a fresh attributed connection; + Connection / Proxy-Connection headers nominating the proxy-owned names (4 values x with/without client copies x signed/no key x 2 callers); + 3 requests on one kept-alive connection while the host closes its side after every answer (later requests carry client copies; whatever reaches the host is judged); non-trivial = at least one client-supplied copy", if thorough { " + requests at wall-clock offsets 0/1/60/120/180/300 s (consecutive gaps 1, 59, 60, 60, 120 s) for the date header" } else { " (quick: garbage values only with lower-case spelling)" }),
         );
     } else {
         // ---------------- C04 end to end ----------------
@@ -274,6 +388,55 @@ fn main() {
                 }
             }
         }
+        // slow uploads: the body follows the head 1.2 s later, so the clock second changes while the proxy holds the
+        // request (whatever the proxy stamps, the MAC must cover the request as the host receives it)
+        w.set_key(Some(K1));
+        let mut slow_n = 0u64;
+        for (clabel, rec, hidx, _elev) in &callers {
+            for (bi, ch) in [None, Some(&[3usize][..])].iter().enumerate() {
+                if !thorough && bi == 1 {
+                    continue;
+                }
+                let hv: Vec<(&str, &[u8])> = vec![("Host", b"metadata"), ("Metadata", b"true"), ("x-a", b"1")];
+                let raw = build_request("POST", "/a?b=c", &hv, Some(b"slow body"), *ch);
+                let head_len = raw.windows(4).position(|x| x == b"\r\n\r\n").unwrap() + 4;
+                let host = w.hosts.all()[*hidx];
+                let cur = host.cursor();
+                let status = match w.connect(Some(next_port()), Some(rec)) {
+                    Ok(mut c) => {
+                        let r = c.send(&raw[..head_len]).map_err(|e| e.to_string()).and_then(|_| {
+                            std::thread::sleep(Duration::from_millis(1200));
+                            c.send(&raw[head_len..]).map_err(|e| e.to_string())
+                        });
+                        let r = r.and_then(|_| c.read_response(false, Duration::from_secs(10)).map(|m| m.status()));
+                        c.close();
+                        r
+                    }
+                    Err(e) => Err(format!("connect: {e}")),
+                };
+                let at_host: Vec<Msg> = host.requests_since(cur).into_iter().map(|(_, m)| m).collect();
+                evals += 1;
+                slow_n += 1;
+                let case = json!({"family": "slow-body", "caller": clabel, "framing": if ch.is_some() { "chunked" } else { "content-length" }, "pause_ms": 1200});
+                nontrivial.insert(case.to_string());
+                if status != Ok(200) || at_host.len() != 1 {
+                    res.violation("proxied:not-relayed", &format!("slow upload: status {:?}, {} requests at host", status, at_host.len()), case);
+                    continue;
+                }
+                relayed += 1;
+                let mut sent: Vec<String> = hv.iter().map(|h| h.0.to_lowercase()).collect();
+                sent.push(if ch.is_some() { "transfer-encoding".into() } else { "content-length".into() });
+                match hostcheck::verify_signature(&at_host[0], &keys, &sent) {
+                    SigVerdict::Valid { modulo_framing, .. } => {
+                        sig_valid += 1;
+                        sig_modulo += modulo_framing as u64;
+                    }
+                    SigVerdict::Unsigned => res.violation("proxied:unsigned-while-key-latched", "slow upload relayed without authorization header", case),
+                    SigVerdict::Bad(why) => res.violation("proxied:mac-invalid:slow-body", &format!("{why}; host received head {:?}", String::from_utf8_lossy(&at_host[0].raw_head)), case),
+                }
+            }
+        }
+        res.cov("slow_body_requests", slow_n);
         // exempt uploads: relayed unchanged, no signature demanded; while no key: nothing signed
         w.set_key(Some(K1));
         for (m, t, exempt) in [("PUT", "/vmAgentLog", true), ("POST", "/machine/?comp=telemetrydata", true), ("PUT", "/VMAGENTLOG", true), ("PUT", "/vmAgentLog?x=1", false), ("POST", "/vmAgentLog", false), ("PUT", "/machine/?comp=telemetrydata", false)] {
